@@ -30,17 +30,17 @@ func undecidedf(format string, a ...any) { panic(undecided{fmt.Sprintf(format, a
 
 // World is the resolved program: type-checked packages, SSA, call graph.
 type World struct {
-	RepoDir string
-	Fset    *token.FileSet
-	Pkgs    []*packages.Package          // packages of the eino module (mock packages included)
-	ByPath  map[string]*packages.Package // import path -> package
-	Prog    *ssa.Program
-	all     map[*ssa.Function]bool
-	cg      *callgraph.Graph
-	fnByObj map[*types.Func]*ssa.Function
-	LoadS   float64
+	RepoDir      string
+	Fset         *token.FileSet
+	Pkgs         []*packages.Package          // packages of the eino module (mock packages included)
+	ByPath       map[string]*packages.Package // import path -> package
+	Prog         *ssa.Program
+	all          map[*ssa.Function]bool
+	cg           *callgraph.Graph
+	fnByObj      map[*types.Func]*ssa.Function
+	LoadS        float64
 	strictChains bool
-	GoVer   string
+	GoVer        string
 }
 
 func loadWorld(repo string, extraEnv ...string) *World {
